@@ -49,7 +49,7 @@ def run(tier: str, seed: int) -> int:
                     continue
                 seen_sig.add(sig)
                 if confirmed < 20:
-                    ok, errors = g.confirm_alone(c)
+                    ok, errors, how = g.confirm_dropped(c)
                     confirmed += 1
                     if ok:
                         continue
